@@ -10,20 +10,6 @@ def UndoOk (db : Db) (s s' : JState) (e : Entry) : Prop :=
   absT db s' = undoT (sdOf s) (absT db s) e ∧ s'.spec = s.spec ∧
       s'.preloaded = s.preloaded ∧ s'.journal = s.journal ∧ s'.logs = s.logs
 
-/-- the standard shape: one account rewritten -/
-syntax "undo_one " ident ident : tactic
-macro_rules
-  | `(tactic| undo_one $h $a) =>
-    `(tactic| (
-      simp only [undoEntry, bind, Option.bind] at $h:ident
-      cases hs : JState.state _ $a with
-      | none => simp [hs] at $h:ident
-      | some acc =>
-        have ha := absAcct_some _ _ hs
-        simp [hs] at $h:ident; subst $h
-        refine ⟨?_, rfl, rfl, rfl, rfl⟩
-        simp [absT_setAcct, putA, undoT, absOf, upd_upd_same, ha, upd_self', absSlot_some]))
-
 theorem undo_accountWarmed (db : Db) (s s' : JState) (a : Addr)
     (h : undoEntry (sdOf s) s (.accountWarmed a) = some s') : UndoOk db s s' (.accountWarmed a) := by
   simp only [undoEntry, bind, Option.bind] at h
@@ -39,14 +25,17 @@ theorem undo_accountTouched (db : Db) (s s' : JState) (a : Addr)
     (h : undoEntry (sdOf s) s (.accountTouched a) = some s') : UndoOk db s s' (.accountTouched a) := by
   simp only [undoEntry, bind, Option.bind] at h
   by_cases hp : sdOf s = true ∧ a = PRECOMPILE3
-  · simp [hp] at h; subst h; simp [UndoOk, undoT, hp]
+  · simp [hp] at h; subst h
+    refine ⟨?_, rfl, rfl, rfl, rfl⟩
+    simp only [undoT, unT, hp, and_self, if_true]
+    rw [upd_self' rfl]
   · cases hs : s.state a with
     | none => simp [hs, hp] at h
     | some acc =>
       have ha := absAcct_some db s hs
       simp [hs, hp] at h; subst h
       refine ⟨?_, rfl, rfl, rfl, rfl⟩
-      simp [absT_setAcct, putA, undoT, absOf, upd_upd_same, ha, upd_self', absSlot_some, hp, maskT]
+      simp [absT_setAcct, putA, undoT, absOf, upd_upd_same, ha, upd_self', absSlot_some, hp, maskT, unT]
 
 theorem undo_accountDestroyed (db : Db) (s s' : JState) (a t : Addr) (was : Bool) (had : Nat)
     (h : undoEntry (sdOf s) s (.accountDestroyed a t was had) = some s') :
